@@ -15,6 +15,8 @@ use sozu_lib::protocol::http::editor::{HeaderEditMode, HeaderEditSnapshot, HttpC
 use sozu_lib::protocol::mux::verif_hdr::{
     apply_response_header_edits, elide_proxy_owned_trailers, handle_header, H2BlockConverter, Prioriser,
 };
+use sozu_lib::protocol::mux::router::verif_apply_request_rewrites_and_headers;
+use sozu_lib::router::HeaderEdit;
 use sozu_lib::Protocol;
 use verif_harness::*;
 
@@ -369,6 +371,10 @@ fn run(case: &Case, out: &mut Out) {
     let mut body: Vec<u8> = vec![];
     let mut cuts: Vec<usize> = vec![];
     let mut edits: Vec<HeaderEditSnapshot> = vec![];
+    // per-frontend request-side policy (router.rs apply_request_rewrites_and_headers)
+    let mut rw_host: Option<String> = None;
+    let mut rw_path: Option<String> = None;
+    let mut req_edits: Vec<HeaderEdit> = vec![];
     for op in &case.ops {
         let a = &op.args;
         match op.name.as_str() {
@@ -427,6 +433,18 @@ fn run(case: &Case, out: &mut Out) {
                 });
                 out.obs(&[]);
             }
+            "rwhost" => {
+                rw_host = Some(String::from_utf8_lossy(a[0].b()).into_owned());
+                out.obs(&[]);
+            }
+            "rwpath" => {
+                rw_path = Some(String::from_utf8_lossy(a[0].b()).into_owned());
+                out.obs(&[]);
+            }
+            "hreq" => {
+                req_edits.push(HeaderEdit { key: a[0].b().to_vec().into(), val: a[1].b().to_vec().into(), mode: HeaderEditMode::Append });
+                out.obs(&[]);
+            }
             "req" | "rsp" => {
                 let request = op.name == "req";
                 let (Some(cfg), Some(ctx)) = (cfg.as_ref(), ctx.as_mut()) else {
@@ -441,6 +459,10 @@ fn run(case: &Case, out: &mut Out) {
                 let input_trs = std::mem::take(&mut trs);
                 let input_body = std::mem::take(&mut body);
                 let mut rejected: Option<String> = None;
+                // per-frontend request policy: applied by the routing layer as soon as the header
+                // section is complete (here: before any trailer is parsed)
+                let had_rewrites = request && (rw_host.is_some() || rw_path.is_some() || !req_edits.is_empty());
+                let (rwh, rwp, rwe) = if had_rewrites { (rw_host.take(), rw_path.take(), std::mem::take(&mut req_edits)) } else { (None, None, vec![]) };
                 if !request {
                     ctx.keep_alive_backend = true;
                 }
@@ -473,7 +495,21 @@ fn run(case: &Case, out: &mut Out) {
                         }
                         raw.extend_from_slice(b"\r\n");
                     }
-                    feed_h1(&mut kawa, ctx, &raw, &cuts, request);
+                    if had_rewrites {
+                        let he = raw.windows(4).position(|w| w == b"\r\n\r\n").map(|p| p + 4).unwrap_or(raw.len());
+                        let c1: Vec<usize> = cuts.iter().copied().filter(|c| *c < he).collect();
+                        feed_h1(&mut kawa, ctx, &raw[..he], &c1, request);
+                        if !kawa.is_error() && kawa.is_main_phase() && ctx.authority.is_some() {
+                            ctx.original_authority = ctx.authority.clone();
+                            verif_apply_request_rewrites_and_headers(&mut kawa, ctx, rwh.as_deref(), rwp.as_deref(), &rwe);
+                        }
+                        if !kawa.is_error() && he < raw.len() {
+                            let c2: Vec<usize> = cuts.iter().copied().filter(|c| *c > he).map(|c| c - he).collect();
+                            feed_h1(&mut kawa, ctx, &raw[he..], &c2, request);
+                        }
+                    } else {
+                        feed_h1(&mut kawa, ctx, &raw, &cuts, request);
+                    }
                     if kawa.is_error() {
                         rejected = Some("h1-parse-error".into());
                     } else if !(kawa.is_terminated() || (kawa.is_main_phase() && kawa.body_size == kawa::BodySize::Empty && input_body.is_empty())) {
@@ -499,6 +535,10 @@ fn run(case: &Case, out: &mut Out) {
                     let mut prio = Prioriser::default();
                     let end_stream = input_trs.is_empty();
                     let r = handle_header(&mut dec, &mut prio, 1, &mut kawa, &block, end_stream, ctx, 65536, 200, cfg.elide);
+                    if r.is_ok() && had_rewrites {
+                        ctx.original_authority = ctx.authority.clone();
+                        verif_apply_request_rewrites_and_headers(&mut kawa, ctx, rwh.as_deref(), rwp.as_deref(), &rwe);
+                    }
                     if let Err((e, _)) = r {
                         rejected = Some(format!("h2-{e:?}"));
                     } else if !input_trs.is_empty() {
@@ -586,7 +626,7 @@ fn run(case: &Case, out: &mut Out) {
                         .map(|(k, v)| (if back == 2 { k.to_ascii_lowercase() } else { k.clone() }, v.clone()))
                         .collect()
                 };
-                if collide {
+                if collide || had_rewrites {
                 } else if request {
                     let (i, oo) = (keep(&input_hs), keep(o));
                     if i != oo {
@@ -611,7 +651,7 @@ fn run(case: &Case, out: &mut Out) {
                         out.viol("response-intact", &format!("want={} got={}", show(&want), show(&got)));
                     }
                 }
-                if request && !collide {
+                if request && !collide && !had_rewrites {
                     if fwd.line[0] != first[0] {
                         out.viol("fidelity", "method changed");
                     }
